@@ -94,7 +94,12 @@ def alterD (sm : SM) (d : KV) (k : String) : J → Except Rej KV
       | .high m =>
         match m.lookup k, cur with
         | some _, _ => .error .attr_error          -- `alter_parameters(non-dict)`: no `.items()`
-        | none, .obj _ => .error .type_error       -- `dict.update(non-dict)`
+        | none, .obj _ =>                          -- `dict.update(non-dict)`
+          match v with
+          | .str s => if s.isEmpty then .ok d else .error .value_error
+          | .list .nil => .ok d
+          | .list _ => .error .value_error       -- (pairs in a list are outside the model's domain)
+          | _ => .error .type_error
         | none, _ => .ok (d.setKey k v)
 /-- `holder.alter_parameters(dict)` -/
 def alterAllD (sm : SM) (d : KV) : KV → Except Rej KV
@@ -112,24 +117,21 @@ def JL.concat (a b : JL) : JL := a.append b
 /-- `unpack_nested_parameter_variations(parameter_variations, variation_index)` -/
 def unpackNested (idx : Nat) : KV → Except Rej (List J)
   | .nil => .ok []
-  | .cons k v rest =>
-    let head : Except Rej (List J) :=
-      match v with
-      | .obj vk =>
-        match unpackNested idx vk with
-        | .ok subs => .ok (subs.map (fun s => J.obj (.cons k s .nil)))
-        | .error e => .error e
-      | .list l =>
-        match l.get? idx with
-        | some x => .ok [J.obj (.cons k x .nil)]
-        | none => .error .index_error
-      | _ => .ok []
-    match head with
+  | .cons k (.obj vk) rest =>
+    match unpackNested idx vk with
     | .error e => .error e
-    | .ok hs =>
+    | .ok subs =>
       match unpackNested idx rest with
-      | .ok ts => .ok (hs ++ ts)
+      | .ok ts => .ok (subs.map (fun s => J.obj (.cons k s .nil)) ++ ts)
       | .error e => .error e
+  | .cons k (.list l) rest =>
+    match l.get? idx with
+    | none => .error .index_error
+    | some x =>
+      match unpackNested idx rest with
+      | .ok ts => .ok (J.obj (.cons k x .nil) :: ts)
+      | .error e => .error e
+  | .cons _ _ rest => unpackNested idx rest
 
 def unpackRange (vk : KV) : Nat → Nat → Except Rej (List J)
   | 0, _ => .ok []
@@ -144,21 +146,21 @@ def unpackRange (vk : KV) : Nat → Nat → Except Rej (List J)
 /-- `unpack_parameter_variations(parameter_variations, num_variations)` -/
 def unpack (n : Nat) : KV → Except Rej KV
   | .nil => .ok .nil
-  | .cons k v rest =>
-    let head : Except Rej J :=
-      match v with
-      | .obj vk =>
-        match unpackRange vk n 0 with
-        | .ok l => .ok (.list (JL.ofList l))
-        | .error e => .error e
-      | .list l => .ok (.list l)
-      | _ => .ok (.list .nil)
-    match head with
+  | .cons k (.obj vk) rest =>
+    match unpackRange vk n 0 with
     | .error e => .error e
-    | .ok h =>
+    | .ok l =>
       match unpack n rest with
-      | .ok t => .ok (.cons k h t)
+      | .ok t => .ok (.cons k (.list (JL.ofList l)) t)
       | .error e => .error e
+  | .cons k (.list l) rest =>
+    match unpack n rest with
+    | .ok t => .ok (.cons k (.list l) t)
+    | .error e => .error e
+  | .cons k _ rest =>
+    match unpack n rest with
+    | .ok t => .ok (.cons k (.list .nil) t)
+    | .error e => .error e
 
 /-- the `{name: unpack(params)}` comprehension of the programs / methods levels -/
 def unpackNamed (nameKey paramsKey : String) (n : Nat) : JL → Except Rej KV
@@ -430,43 +432,129 @@ def finishSets : List PH → Nat → Except Rej (List PH)
       | .ok r => .ok ({ p with sim := s } :: r)
       | .error e => .error e
 
+/-- programs level: baseline first, then one renamed and altered copy per set and varied program -/
+def varyProgramsSet (base : PH) (n : Nat) (vars : KV) : Except Rej PH :=
+  match base.programs.lookup base.baseline, base.progMaps.lookup base.baseline with
+  | some bp, some bm =>
+    match varyProgramsOuter base n vars n 0
+        (KV.cons base.baseline bp .nil, SML.cons base.baseline bm .nil) with
+    | .error e => .error e
+    | .ok acc => .ok { base with programs := acc.1, progMaps := acc.2 }
+  | _, _ => .error .key_error
+
+/-- end of the methods level: "remove the original programs", then add the baseline program -/
+def finishMethods (base : PH) (acc : KV × SML) : Except Rej PH :=
+  match removeAll base.programs.keys acc with
+  | .error e => .error e
+  | .ok acc' =>
+    match base.programs.lookup base.baseline, base.progMaps.lookup base.baseline with
+    | some bp, some bm =>
+      .ok { base with programs := acc'.1.setKey base.baseline bp,
+                      progMaps := acc'.2.setKey base.baseline bm }
+    | _, _ => .error .key_error
+
+def varyMethodsSet (base : PH) (sens : Option String) (n : Nat) (vars : KV) : Except Rej PH :=
+  match sens with
+  | none =>
+    if n = 0 then finishMethods base (base.programs, base.progMaps)
+    else .error .key_error                          -- `get_program(None)`
+  | some sp =>
+    match varyMethodsOuter base sp n vars n 0 (base.programs, base.progMaps) with
+    | .error e => .error e
+    | .ok acc => finishMethods base acc
+
+/-- the parameter sets before `alter_simulation_info` -/
+def varySets (maps : Maps) (base : PH) (sens : Option String) (level : String) (n : Nat) (vars : KV) :
+    Except Rej (List PH) :=
+  if level = "virtual_world" then varyVW maps base n vars n 0
+  else if level = "programs" then
+    match varyProgramsSet base n vars with
+    | .ok s => .ok [s]
+    | .error e => .error e
+  else if level = "methods" then
+    match varyMethodsSet base sens n vars with
+    | .ok s => .ok [s]
+    | .error e => .error e
+  else .error .value_error
+
 /-- `vary_parameter_values(simulation_parameters, sensitivity_program, parameter_level,
 number_of_sensitivity_sets, parameter_variations)` -/
 def vary (maps : Maps) (base : PH) (sens : Option String) (level : String) (n : Nat) (vars : KV) :
     Except Rej (List PH) :=
-  let sets : Except Rej (List PH) :=
-    if level = "virtual_world" then varyVW maps base n vars n 0
-    else if level = "programs" then
-      match base.programs.lookup base.baseline, base.progMaps.lookup base.baseline with
-      | some bp, some bm =>
-        match varyProgramsOuter base n vars n 0 (KV.cons base.baseline bp .nil, SML.cons base.baseline bm .nil) with
-        | .error e => .error e
-        | .ok (ps, ms) => .ok [{ base with programs := ps, progMaps := ms }]
-      | _, _ => .error .key_error
-    else if level = "methods" then
-      match sens with
-      | none => if n = 0 then
-          (match removeAll base.programs.keys (base.programs, base.progMaps) with
-           | .error e => .error e
-           | .ok (ps, ms) =>
-             match base.programs.lookup base.baseline, base.progMaps.lookup base.baseline with
-             | some bp, some bm => .ok [{ base with programs := ps.setKey base.baseline bp, progMaps := ms.setKey base.baseline bm }]
-             | _, _ => .error .key_error)
-        else .error .key_error
-      | some sp =>
-        match varyMethodsOuter base sp n vars n 0 (base.programs, base.progMaps) with
-        | .error e => .error e
-        | .ok acc =>
-          match removeAll base.programs.keys acc with
-          | .error e => .error e
-          | .ok (ps, ms) =>
-            match base.programs.lookup base.baseline, base.progMaps.lookup base.baseline with
-            | some bp, some bm =>
-              .ok [{ base with programs := ps.setKey base.baseline bp, progMaps := ms.setKey base.baseline bm }]
-            | _, _ => .error .key_error
-    else .error .value_error
-  match sets with
+  match varySets maps base sens level n vars with
   | .error e => .error e
   | .ok l => finishSets l 0
+
+/-! ### decidable well-formedness hypotheses of the C19 theorems (evaluated by the check on every case) -/
+
+/-- a one-level `dict.update` equals the nested update: no dictionary value meets a dictionary -/
+def shallowOK (ck : KV) : KV → Bool
+  | .nil => true
+  | .cons k2 v2 rest =>
+    !(v2.isObj && (match ck.lookup k2 with
+        | some (.obj _) => true
+        | _ => false)) && shallowOK ck rest
+
+mutual
+/-- the plain dictionary entries of high-level holders are flat with respect to the alteration
+(true of every mapping / default tree shipped with LDAR-Sim at the three sensitivity levels), and a
+dictionary entry is only ever altered with a dictionary -/
+def flatD (sm : SM) (d : KV) (k : String) : J → Bool
+  | .obj vk =>
+    match d.lookup k with
+    | none => true
+    | some cur =>
+      match sm with
+      | .gen => true
+      | .high m =>
+        match m.lookup k, cur with
+        | some sub, .obj ck => flatAll sub ck vk
+        | none, .obj ck => shallowOK ck vk
+        | _, _ => true
+  | _ =>
+    match d.lookup k with
+    | none => true
+    | some cur =>
+      match sm with
+      | .gen => true
+      | .high m =>
+        match m.lookup k, cur with
+        | none, .obj _ => false
+        | _, _ => true
+def flatAll (sm : SM) (d : KV) : KV → Bool
+  | .nil => true
+  | .cons k v rest => flatD sm d k v && flatAll sm d rest
+end
+
+def single (k : String) (x : J) : KV := .cons k x .nil
+
+/-- decidable form of `DictOnDict` -/
+def dodB (cur : KV) : KV → Bool
+  | .nil => true
+  | .cons k (.obj vk) rest =>
+    (match cur.lookup k with
+      | some (.obj ck) => dodB ck vk
+      | _ => false) && dodB cur rest
+  | .cons _ _ rest => dodB cur rest
+
+/-- hypotheses of one key's alterations, threaded through the intermediate dictionaries:
+well-formed values, flat plain entries, dictionaries only on dictionaries -/
+def seqOK (sm : SM) (k : String) : KV → List J → Bool
+  | _, [] => true
+  | d, x :: xs =>
+    x.wf && flatD sm d k x && dodB d (single k x) &&
+      (match alterD sm d k x with
+        | .ok d' => seqOK sm k d' xs
+        | .error _ => true)
+
+/-- hypotheses of a whole set of variations, threaded key after key -/
+def varsOK (sm : SM) (n i : Nat) : KV → KV → Bool
+  | _, .nil => true
+  | d, .cons k (.list l) rest =>
+    seqOK sm k d (sliceFor n i l) &&
+      (match alterSeq sm d k (sliceFor n i l) with
+        | .ok d' => varsOK sm n i d' rest
+        | .error _ => true)
+  | _, .cons _ _ _ => true
 
 end LdarModel.Holder
